@@ -104,6 +104,22 @@ pub fn gen_packets(r: &mut Rng, thorough: bool, f: &mut dyn FnMut(u64, &Packet))
         if thorough { for extra in [-1i64, 0, 1].iter() { let n = (*dl as i64 + extra) as usize; d.truncate(6); d.extend(r.bytes(n)); f(4, &Packet { is_error: false, device_address: 2, data: d.clone() }); } }
     }
     if !thorough { let mut d = vec![0u8, 4, 0, 1, 0xff, 0xff]; d.extend(r.bytes(65535)); f(4, &Packet { is_error: false, device_address: 2, data: d.clone() }); d.push(0); f(4, &Packet { is_error: false, device_address: 2, data: d }); }
+    // 2b. sizes that collide with a valid size modulo 256 (a length kept in a u8, or packed next to the code in a u16):
+    //     every decoder k x every code c x the size of k's own valid encoding + 256*m; plus k's valid encoding with 256*m (and once 65536) extra bytes
+    for kind in 0..16u64 {
+        let base = ref_encode(&gen_event(r, kind, 0));
+        let lk = base.data.len();
+        for c in 0..16u64 {
+            let mut ms = vec![1usize, 2, 3]; if kind > c + 3 { ms.push((kind - c) as usize); }
+            for m in ms { let mut q = rand_packet(r, c, lk + 256 * m); q.data[0] = 0; q.data[1] = c as u8; f(kind, &q); }
+        }
+        for extra in [256usize, 512, 768, 1024].iter() { let mut q = base.clone(); q.data.extend(r.bytes(*extra)); f(kind, &q); }
+        if kind % 4 == 3 || thorough { let mut q = base.clone(); q.data.extend(r.bytes(65536)); f(kind, &q); }
+    }
+    // 2c. every code x every packet size 0..=600 (random content behind the code), each offered to the decoder of that code
+    for c in 0..16u64 { for len in 71..=600usize { let mut q = rand_packet(r, c, len); q.data[0] = 0; q.data[1] = c as u8; f(c, &q); } }
+    // 2d. data events of every payload size 0..=600, valid encodings
+    for n in 0..=600usize { let e = gen_event(r, 4, 0); let mut p = ref_encode(&e); p.data.truncate(4); p.data.push((n >> 8) as u8); p.data.push(n as u8); p.data.extend(r.bytes(n)); f(4, &p); }
     // 3. entirely random packets against random decoders
     for _ in 0..(if thorough { 200000 } else { 8000 }) {
         let len = if r.chance(1, 20) { r.below(300) as usize } else { r.below(20) as usize };
@@ -135,7 +151,8 @@ pub fn gen_amb(r: &mut Rng, thorough: bool, cx: &mut Ctx) {
     let mut n = 0u64;
     gen_packets(r, false, &mut |_, p| { n += 1; if thorough || n % 3 == 0 { let mut l = vec![0]; show_packet(p, &mut l); cx.emit(&l); } });
     let per_kind = if thorough { 20000 } else { 1200 };
-    for kind in 0..16u64 { for _ in 0..(if kind == 5 { 1 } else { per_kind }) { let mut l = vec![1]; l.extend(gen_event(r, kind, 40)); cx.emit(&l); } }
+    for kind in 0..16u64 { for _ in 0..(if kind == 5 { 1 } else { per_kind }) { let mut l = vec![1]; l.extend(gen_event(r, kind, 40)); cx.emit(&l); } }    // data events of every payload size 0..=600 (a size that, packed with the code, looks like another kind's header)
+    for n in 0..=600u64 { let mut l = vec![1, 4, r.u16b(), r.u16b(), n]; l.extend(r.bytes(n as usize).iter().map(|b| *b as u64)); cx.emit(&l); }
 }
 pub fn exec_amb(case: &[u64]) -> L {
     let p = if case[0] == 0 { parse_packet(&case[1..]).0 } else { ev_of(&case[1..]).to_packet() };
